@@ -879,6 +879,7 @@ Proof.
   induction pats as [|pat r IH]; intros st st' HP H; cbn [dyn_try_patterns] in H; [discriminate|].
   destruct (find_match vs pat (ts_infos st)) as [m|]; cbn [bind] in H; [|discriminate].
   destruct (Nat.eqb _ _); [|eauto].
+  destruct (get_number vs (s "value") (fm_fields m)); [|eauto].
   crunch. unfold PS. cbn [ts_ui]. eapply ui_type_field_p; eauto.
 Qed.
 
